@@ -954,6 +954,11 @@ class ModelsOps:
                 return o
         if name in ("callable", "id", "getattr", "issubclass", "set", "frozenset"):
             return OpaqueV(name)
+        if "." in name and name.split(".")[0] not in ("operator", "math", "date", "itertools", "functools", "object"):
+            # a library function the models know nothing about: its result is opaque
+            o = OpaqueV(f"call({name})")
+            o.call_args = args
+            return o
         if name.startswith("itertools.") or name.startswith("functools."):
             return ListV(None, tag=name)
         I.unsupported(node, f"builtin {name}")
